@@ -41,7 +41,7 @@ class Frustum(RoundSolidShape):
         radius_1 = f.norm(radius_vector_1)
 
         # TODO: TEST
-        diff = np.dot(axis, radius_vector_1)
+        diff = np.dot(f.unit_vector(axis), radius_vector_1)
         if abs(diff) > TOL:
             raise FrustumCreationError(
                 "Axis and radius vectors are not perpendicular", f"Difference: {diff}, tolerance: {TOL}"
